@@ -136,7 +136,10 @@ def handle_nn(c):
     x, y = arr(c['x']), arr(c['y'])
     n = x.shape[1]
     typ = c['type']
-    s = NearestNeighbor(interpolant_type=typ)
+    kw = {'rbf_family': int(c['family'])} if c.get('family') is not None else {}
+    s = NearestNeighbor(interpolant_type=typ, **kw)
+    if kw:
+        typ = 'rbf(family=%d)' % kw['rbf_family']
     s.train(x, y)
     yr = max(1.0, float(np.max(y) - np.min(y)), float(np.max(np.abs(y))))
     ok, msg = True, ''
@@ -147,7 +150,7 @@ def handle_nn(c):
                 typ, x[i].tolist(), p.tolist(), y[i].tolist())
             break
     res, aux = '__none__', None
-    if typ == 'weighted':
+    if c['type'] == 'weighted':
         res, aux = [], []
         itp = s.interpolant
         for qp in c['queries']:
@@ -174,6 +177,45 @@ def handle_nn(c):
                     typ, xq.tolist(), jac.tolist(), d.tolist())
                 break
     return {'res': res, 'aux': aux, 'ok': ok, 'msg': msg, 'sig': 'nn-' + typ, 'kind': 'nn/%s/%dD' % (typ, n)}
+
+
+def handle_krig_cache(c):
+    """training_cache histories: train once (the cache file is written), then train a second surrogate
+    against the same cache file with (same x, other y) / (other x) / (same x, same y).  After training, the
+    surrogate must return ITS training outputs at its training inputs -- i.e. behave like a surrogate trained
+    on the same data without a cache."""
+    import os
+    x1, y1, x2, y2 = arr(c['x']), arr(c['y']), arr(c['x2']), arr(c['y2'])
+    n = x1.shape[1]
+    fn = 'krig_cache_%d.npz' % os.getpid()
+    if os.path.exists(fn):
+        os.remove(fn)
+    import io
+    import contextlib
+    ok, msg = True, ''
+    try:
+        with contextlib.redirect_stdout(io.StringIO()):
+            a = KrigingSurrogate(nugget=0., training_cache=fn)
+            a.train(x1, y1)
+            b = KrigingSurrogate(nugget=0., training_cache=fn)
+            b.train(x2, y2)
+            ref = KrigingSurrogate(nugget=0.)
+            ref.train(x2, y2)
+        yr = max(1.0, float(np.max(y2) - np.min(y2)))
+        for i in range(len(x2)):
+            pb = np.ravel(b.predict(x2[i].copy()))
+            pr = np.ravel(ref.predict(x2[i].copy()))
+            if np.max(np.abs(pb - pr)) > 1e-6 * yr:
+                ok = False
+                msg = ('Kriging(nugget=0, training_cache) trained on (x2, y2) after the cache was written for '
+                       '(x1, y1) [%s]: at training input %s it returns %r; training output %r, a surrogate trained '
+                       'without cache returns %r' % (c['scenario'], x2[i].tolist(), pb.tolist(), y2[i].tolist(), pr.tolist()))
+                break
+    finally:
+        if os.path.exists(fn):
+            os.remove(fn)
+    return {'res': '__none__', 'ok': ok, 'msg': msg, 'sig': 'kriging-training-cache/' + c['scenario'],
+            'kind': 'krigcache/%s/%dD' % (c['scenario'], n)}
 
 
 def handle_krig(c):
@@ -259,7 +301,8 @@ def handle_mm(c):
 
 
 def handle(c):
-    return {'rs': handle_rs, 'nn': handle_nn, 'krig': handle_krig, 'mm': handle_mm}[c['kind']](c)
+    return {'rs': handle_rs, 'nn': handle_nn, 'krig': handle_krig, 'krigcache': handle_krig_cache,
+            'mm': handle_mm}[c['kind']](c)
 
 
 if __name__ == '__main__':
